@@ -39,6 +39,11 @@
     * every candidate key occurs in its table (otherwise KeyError, in Python as in the model);
     * fewer than 2⁴⁰ candidate rows (binary64 precision limit of `split_table`'s chunk boundaries).
     * the candset's first column is its `_id` column (cell 0 of a candidate row), as in every join / filter output.
+    * nothing raises in the body: for `apply_matcher` with a tokenizer both match columns hold only strings and missing
+      values (`hstr`; else TypeError, `C15_body`); for `filter_candset` the filter's `filter_pair` — a Python call
+      `fp : Cell → Cell → Except PyErr Bool` — does not raise on pairs of values of the two columns (`hfp`; for
+      `filterPairPy` / `overlapFilterPairPy` this is implied by string columns, `SSJ.filterPairPy_columns`).
+      `matcher_empty_candset` needs neither (the candset is returned before anything is tokenized).
   Everything else is arbitrary: similarity function, tokenizer, threshold, operator, `allow_missing`, output attribute
   lists (absent, empty, with the key, with repeats), prefixes, `n_jobs`, cpu count.
 
@@ -61,10 +66,11 @@ theorem matcher_columns (a : MatcherArgs) (t : Option TokObj) (toks : TokFn) (si
     (c l r : Frame) (hv : validateMatcher a t = .ok (c, l, r))
     (hl : ∀ cr ∈ c.rows, cr.cell (c.colIdx a.candLKey) ∈ l.col a.lKey)
     (hr : ∀ cr ∈ c.rows, cr.cell (c.colIdx a.candRKey) ∈ r.col a.rKey)
-    (hlen : c.rows.length < 2 ^ 40) :
+    (hlen : c.rows.length < 2 ^ 40)
+    (hstr : t.isSome → StrColumn l a.lAttr ∧ StrColumn r a.rAttr) :
     ∃ fr, applyMatcher a t toks sim cpu = .ok fr ∧
       fr.columns = if c.rows.isEmpty then c.columns else documentedColumns a.toTableArgs a.outSimScore := by
-  obtain ⟨fr, hfr, hcols, -⟩ := applyMatcher_rows' a t toks sim cpu c l r hv hl hr hlen
+  obtain ⟨fr, hfr, hcols, -⟩ := applyMatcher_rows' a t toks sim cpu c l r hv hl hr hlen hstr
   refine ⟨fr, hfr, ?_⟩
   rw [hcols]
   rfl
@@ -90,10 +96,11 @@ theorem matcher_rows_are_candset_rows (a : MatcherArgs) (t : Option TokObj) (tok
     (cpu : Int) (c l r : Frame) (hv : validateMatcher a t = .ok (c, l, r))
     (hl : ∀ cr ∈ c.rows, cr.cell (c.colIdx a.candLKey) ∈ l.col a.lKey)
     (hr : ∀ cr ∈ c.rows, cr.cell (c.colIdx a.candRKey) ∈ r.col a.rKey)
-    (hlen : c.rows.length < 2 ^ 40) :
+    (hlen : c.rows.length < 2 ^ 40)
+    (hstr : t.isSome → StrColumn l a.lAttr ∧ StrColumn r a.rAttr) :
     ∃ fr kept, applyMatcher a t toks sim cpu = .ok fr ∧ kept.Sublist c.rows ∧
       List.Forall₂ (FromCandidate a c l r) kept fr.rows := by
-  obtain ⟨fr, kept, hfr, -, hs, hf⟩ := applyMatcher_kept a t toks sim cpu c l r hv hl hr hlen
+  obtain ⟨fr, kept, hfr, -, hs, hf⟩ := applyMatcher_kept a t toks sim cpu c l r hv hl hr hlen hstr
   have hV := (validateMatcher_ok_iff a t c l r).1 hv
   refine ⟨fr, kept, hfr, hs, hf.imp ?_⟩
   rintro cr row ⟨ls, hls, rs, hrs, s, hkl, hkr, rfl⟩
@@ -116,20 +123,19 @@ theorem matcher_empty_candset (a : MatcherArgs) (t : Option TokObj) (toks : TokF
     applyMatcher a t toks sim cpu = .ok c := by
   have hV := (validateMatcher_ok_iff a t c l r).1 hv
   obtain ⟨hv1, hv2, hv3, hv4, hv5, hv6, hv7, hv8, hv9, hv10, hv11⟩ := hV.validations
-  rw [applyMatcher_spec a t toks sim cpu c l r hV.candset hV.ltable hV.rtable hv1 hv2 hv3 hv4 hv5 hv6 hv7 hv8 hv9
-    hv10 hv11 (by rw [hemp]; intro cr h; cases h) (by rw [hemp]; intro cr h; cases h)
-    (chunksFor_flatten _ _ _ (by rw [hemp]; decide))]
-  rw [if_pos (by rw [hemp]; rfl)]
+  exact applyMatcher_empty a t toks sim cpu c l r hV.candset hV.ltable hV.rtable hv1 hv2 hv3 hv4 hv5 hv6 hv7 hv8 hv9
+    hv10 hv11 (by rw [hemp]; rfl)
 
 /-- consequently, for a non-empty candset, every row is exactly as wide as the header -/
 theorem matcher_row_width (a : MatcherArgs) (t : Option TokObj) (toks : TokFn) (sim : SimArg → SimArg → PyV)
     (cpu : Int) (c l r : Frame) (hv : validateMatcher a t = .ok (c, l, r))
     (hl : ∀ cr ∈ c.rows, cr.cell (c.colIdx a.candLKey) ∈ l.col a.lKey)
     (hr : ∀ cr ∈ c.rows, cr.cell (c.colIdx a.candRKey) ∈ r.col a.rKey)
-    (hlen : c.rows.length < 2 ^ 40) (hne : c.rows ≠ []) :
+    (hlen : c.rows.length < 2 ^ 40) (hne : c.rows ≠ [])
+    (hstr : t.isSome → StrColumn l a.lAttr ∧ StrColumn r a.rAttr) :
     ∃ fr, applyMatcher a t toks sim cpu = .ok fr ∧ ∀ row ∈ fr.rows, row.length = fr.columns.length := by
-  obtain ⟨fr, kept, hfr, -, hf⟩ := matcher_rows_are_candset_rows a t toks sim cpu c l r hv hl hr hlen
-  obtain ⟨fr', hfr', hcols⟩ := matcher_columns a t toks sim cpu c l r hv hl hr hlen
+  obtain ⟨fr, kept, hfr, -, hf⟩ := matcher_rows_are_candset_rows a t toks sim cpu c l r hv hl hr hlen hstr
+  obtain ⟨fr', hfr', hcols⟩ := matcher_columns a t toks sim cpu c l r hv hl hr hlen hstr
   rw [hfr] at hfr'
   cases Except.ok.inj hfr'
   refine ⟨fr, hfr, ?_⟩
@@ -147,24 +153,26 @@ theorem matcher_row_width (a : MatcherArgs) (t : Option TokObj) (toks : TokFn) (
 /-! ## filter_candset -/
 
 /-- COLUMNS of `filter_candset`: the candset's own columns (and dtypes), for every filter. -/
-theorem candset_filter_columns (a : CandsetArgs) (fp : Cell → Cell → Bool) (cpu : Int) (c l r : Frame)
+theorem candset_filter_columns (a : CandsetArgs) (fp : Cell → Cell → Except PyErr Bool) (cpu : Int) (c l r : Frame)
     (hv : validateCandset a = .ok (c, l, r))
     (hl : ∀ cr ∈ c.rows, cr.cell (c.colIdx a.candLKey) ∈ l.col a.lKey)
     (hr : ∀ cr ∈ c.rows, cr.cell (c.colIdx a.candRKey) ∈ r.col a.rKey)
-    (hlen : c.rows.length < 2 ^ 40) :
+    (hlen : c.rows.length < 2 ^ 40)
+    (hfp : ∀ ls ∈ l.rows, ∀ rs ∈ r.rows, ∃ b, fp (valOf l a.lAttr ls) (valOf r a.rAttr rs) = .ok b) :
     ∃ fr, filterCandset a fp cpu = .ok fr ∧ fr.columns = c.columns ∧ fr.dtypes = c.dtypes := by
-  obtain ⟨fr, hfr, h1, h2, -⟩ := filterCandset_total a fp cpu c l r hv hl hr hlen
+  obtain ⟨fr, hfr, h1, h2, -⟩ := filterCandset_total a fp cpu c l r hv hl hr hlen hfp
   exact ⟨fr, hfr, h1, h2⟩
 
 /-- ROWS of `filter_candset`: a sublist of the candset's rows — every result row IS a candidate row, all its cells
     unchanged (the `_id`, the keys and whatever other columns the candset carries), in candset order. -/
-theorem candset_filter_rows_sublist (a : CandsetArgs) (fp : Cell → Cell → Bool) (cpu : Int) (c l r : Frame)
+theorem candset_filter_rows_sublist (a : CandsetArgs) (fp : Cell → Cell → Except PyErr Bool) (cpu : Int) (c l r : Frame)
     (hv : validateCandset a = .ok (c, l, r))
     (hl : ∀ cr ∈ c.rows, cr.cell (c.colIdx a.candLKey) ∈ l.col a.lKey)
     (hr : ∀ cr ∈ c.rows, cr.cell (c.colIdx a.candRKey) ∈ r.col a.rKey)
-    (hlen : c.rows.length < 2 ^ 40) :
+    (hlen : c.rows.length < 2 ^ 40)
+    (hfp : ∀ ls ∈ l.rows, ∀ rs ∈ r.rows, ∃ b, fp (valOf l a.lAttr ls) (valOf r a.rAttr rs) = .ok b) :
     ∃ fr, filterCandset a fp cpu = .ok fr ∧ fr.rows.Sublist c.rows := by
-  obtain ⟨fr, hfr, -, -, h⟩ := filterCandset_total a fp cpu c l r hv hl hr hlen
+  obtain ⟨fr, hfr, -, -, h⟩ := filterCandset_total a fp cpu c l r hv hl hr hlen hfp
   exact ⟨fr, hfr, h⟩
 
 /-! ## Non-vacuity, and the counterexample to "candset columns plus `_sim_score`" -/
@@ -198,7 +206,7 @@ theorem matcher_columns_not_candset_columns (toks : TokFn) (sim : SimArg → Sim
       fr.columns = ["_id", "l_id", "r_rid", "l_zip", "_sim_score"] ∧
       fr.columns ≠ cxC.columns ++ ["_sim_score"] := by
   obtain ⟨fr, hfr, hcols⟩ := matcher_columns cxArgs none toks sim cpu cxC cxL cxR (by decide) (by decide) (by decide)
-    (by decide)
+    (by decide) (fun h => by cases h)
   refine ⟨fr, hfr, ?_, ?_⟩
   · rw [hcols]; decide
   · rw [hcols]; decide
@@ -217,7 +225,7 @@ def cxCandArgs : CandsetArgs :=
   { candset := some cxC, candLKey := "a", candRKey := "b", ltable := some cxL, rtable := some cxR,
     lKey := "id", rKey := "rid", lAttr := "name", rAttr := "title" }
 example : validateCandset cxCandArgs = .ok (cxC, cxL, cxR) := by decide
-example : filterCandset cxCandArgs (fun x y => x != y) 4 =
+example : filterCandset cxCandArgs (fun x y => .ok (x != y)) 4 =
     .ok { cxC with index := [.missing], rows := [[.int 0, .int 1, .int 7, .str "p"]] } := by decide
 
 end Examples
